@@ -197,7 +197,8 @@ def coq_closure(rel):
             continue
         seen.append(f)
         src = strip_comments(open(os.path.join(COQ, f)).read())
-        for m in re.finditer(r"Require\s+(?:Import\s+|Export\s+)?([^\n]*?)\.(?:\s|$)", src):
+        MOD = r"[A-Za-z_][\w']*(?:\.[A-Za-z_][\w']*)*"
+        for m in re.finditer(r"Require\s+(?:Import\s+|Export\s+)?((?:%s\s+)*%s)\s*\.(?:\s|$)" % (MOD, MOD), src):
             for mod in m.group(1).split():
                 mod = mod[6:] if mod.startswith("Verif.") else mod
                 cand = mod.replace(".", "/") + ".v"
